@@ -238,7 +238,17 @@ func c01R1(c *Ctx, p *Prog, rule string) {
 					walk(s)
 				}
 			}
-			if lb.IllegalTo == lb.LegalTo {
+			// if the matching undo already ran between the in-check test and the branch (the test's
+			// result is kept in a local), both edges continue on the restored board
+			undoneBefore := false
+			for _, u := range callsIn(fn, "board.(*Board).UndoMove") {
+				if instrDominates(lb.InCheck, u.(ssa.Instruction)) && instrDominates(u.(ssa.Instruction), lb.If) {
+					undoneBefore = true
+				}
+			}
+			if undoneBefore {
+				// nothing to check
+			} else if lb.IllegalTo == lb.LegalTo {
 				effect = "both edges lead to the same block"
 			} else if len(lb.IllegalTo.Preds) == 1 {
 				walk(lb.IllegalTo)
@@ -285,6 +295,19 @@ func c01R2(c *Ctx, p *Prog) {
 	for i := 0; i < named.NumMethods(); i++ {
 		m := named.Method(i)
 		spec := objName(m)
+		// pure helpers of the generator (no move is emitted in their closure) are not generator methods
+		if mf := p.Func(spec); mf != nil {
+			emits := false
+			for _, f := range p.closure([]*ssa.Function{mf}, func(f *ssa.Function) bool { return relPkg(fnPkgPath(f)) != "movegen" }) {
+				if len(callsIn(f, "move.(*Store).Alloc")) > 0 {
+					emits = true
+				}
+			}
+			if !emits {
+				c.OkTrivial(rule, spec+"#helper", m.Pos(), "emits no move: a helper, not a generator method")
+				continue
+			}
+		}
 		sig := m.Type().(*types.Signature)
 		nbb := 0
 		for j := 0; j < sig.Params().Len(); j++ {
@@ -372,22 +395,32 @@ func c01R2(c *Ctx, p *Prog) {
 			c.Check(okFrom, rule, spec+"#exactly-once", uses[0].call.Pos(), "called exactly once (in the %s half) with Full masks", uses[0].half)
 		}
 	}
-	c.Floor(rule+".methods", nMethods, 13, "generator methods")
-	c.Floor(rule+".calls", nCalls, 18, "generator calls in the two halves")
+	c.Floor(rule+".methods", nMethods, 10, "generator methods")
+	c.Floor(rule+".calls", nCalls, 14, "generator calls in the two halves")
 	// generator literal: self = Colors[STM], them = Colors[STM.Flip()], occ = Colors[White]|Colors[Black]
 	for _, half := range []*ssa.Function{noisy, quiet} {
 		genFieldInit(c, rule, half)
 	}
-	// consumers needing all moves call both halves with the same store
-	for _, spec := range []string{"debug.perft", "search.(*Search).iterativeDeepen"} {
-		fn := p.Func(spec)
-		if fn == nil {
-			c.Anchor(rule, spec)
+	// consumers needing all moves call both halves with the same store: every chess-3 function
+	// outside movegen and the staged picker that calls one half must call the other with it
+	nCons := 0
+	for _, fn := range p.OwnFuncs() {
+		pkg := relPkg(fnPkgPath(fn))
+		if pkg == "movegen" || pkg == "picker" {
 			continue
 		}
-		ok := bothHalvesTogether(fn)
-		c.Check(ok, rule, spec+"#both-halves", fn.Pos(), "consumer that needs every move calls GenNoisy and GenNotNoisy, on the same store and board, together on every path")
+		if len(callsIn(fn, "movegen.GenNoisy"))+len(callsIn(fn, "movegen.GenNotNoisy")) == 0 {
+			continue
+		}
+		// quiescence deliberately searches the noisy half only
+		if fnName(fn) == "search.(*Search).quiescence" {
+			c.OkTrivial(rule, fnName(fn)+"#noisy-only", fn.Pos(), "quiescence generates the noisy half only, by design")
+			continue
+		}
+		nCons++
+		c.Check(bothHalvesTogether(fn), rule, fnName(fn)+"#both-halves", fn.Pos(), "consumer that needs every move calls GenNoisy and GenNotNoisy, on the same store and board, together on every path")
 	}
+	c.Floor(rule+".consumers", nCons, 2, "consumers of the full move list")
 	// picker: GenNoisy and GenNotNoisy each called exactly once in Next
 	if fn := p.Func("picker.(*Picker).Next"); fn != nil {
 		a, b := callsIn(fn, "movegen.GenNoisy"), callsIn(fn, "movegen.GenNotNoisy")
